@@ -317,15 +317,39 @@ func Supervise(self string, chk *Check, tier string, seed int64) int {
 
 	// one representative per signature (the first = simplest by enumeration order)
 	bySig := map[string]*Violation{}
+	// further candidates of a signature, one per other space: tried when the first does not reproduce
+	alts := map[string][]*Violation{}
 	var order []string
 	counts := map[string]int{}
 	for i := range total.Violations {
 		v := &total.Violations[i]
 		counts[v.Sig]++
-		if _, ok := bySig[v.Sig]; !ok {
+		if first, ok := bySig[v.Sig]; !ok {
 			bySig[v.Sig] = v
 			order = append(order, v.Sig)
+		} else {
+			_ = first
+			alts[v.Sig] = append(alts[v.Sig], v)
 		}
+	}
+	// order the further candidates: one per space not yet represented first, then the rest; at most 8
+	for sig, as := range alts {
+		seen := map[string]bool{bySig[sig].Space: true}
+		var front, back []*Violation
+		for _, a := range as {
+			if !seen[a.Space] {
+				seen[a.Space] = true
+				front = append(front, a)
+			} else {
+				back = append(back, a)
+			}
+		}
+		// spread the rest over the list (cases recorded by different workers)
+		step := len(back)/6 + 1
+		for i := 0; i < len(back) && len(front) < 8; i += step {
+			front = append(front, back[i])
+		}
+		alts[sig] = front
 	}
 	exit := 0
 	var lines []string
@@ -341,11 +365,22 @@ func Supervise(self string, chk *Check, tier string, seed int64) int {
 		file := writeReplay(v, 0)
 		if !v.Crash && !v.Sound {
 			ok := 0
-			for i := 0; i < 5; i++ {
-				rep, _ := replayInFresh(self, file)
-				if rep {
-					ok++
+			for _, cand := range append([]*Violation{v}, alts[sig]...) {
+				file = writeReplay(cand, 0)
+				ok = 0
+				for i := 0; i < 5; i++ {
+					rep, _ := replayInFresh(self, file)
+					if rep {
+						ok++
+					}
 				}
+				if ok == 5 {
+					v = cand
+					break
+				}
+			}
+			if ok != 5 {
+				file = writeReplay(v, 0)
 			}
 			if ok != 5 && len(v.Preceding) > 0 {
 				// The case may depend on state the library carried over from earlier calls in the
